@@ -55,6 +55,9 @@ func alphabet() []item {
 		{"CONNECT(ok,will,unclean)", func() packet.Generic { return withCreds(env.Connect("c", false, will.Copy()), "u", "pw") }},
 		{"CONNECT(badpw,will)", func() packet.Generic { return withCreds(env.Connect("c", true, will.Copy()), "u", "nope") }},
 		{"CONNECT(nouser)", func() packet.Generic { return env.Connect("d", false, nil) }},
+		{"CONNECT(unknown-user,no-password,will)", func() packet.Generic { return withCreds(env.Connect("c", true, will.Copy()), "stranger", "") }},
+		{"CONNECT(unknown-user,known-password)", func() packet.Generic { return withCreds(env.Connect("c", true, nil), "stranger", "pw") }},
+		{"CONNECT(known-user,no-password)", func() packet.Generic { return withCreds(env.Connect("c", false, nil), "u", "") }},
 		{"CONNACK", func() packet.Generic { return packet.NewConnack() }},
 		{"PUBLISH(q0)", func() packet.Generic { return env.Publish(0, "x", "p0", 0, false, false) }},
 		{"PUBLISH(q1,7)", func() packet.Generic { return env.Publish(7, "x", "p1", 1, false, false) }},
@@ -236,6 +239,12 @@ func sequence(x *explore.X, pr params) {
 		if evs := w.Rec.Calls("Setup", p.Name); len(evs) > 0 {
 			if n, c, ok := env.ChanLen(evs[0].Client, "subscribeTokens"); ok && n != c {
 				x.Failf("every-request-answered", "subscribe-token-leak:"+sig, "all SUBSCRIBE/UNSUBSCRIBE requests were answered but only %d of %d subscribe tokens are back (sent %s)", n, c, sig)
+			}
+			// publish tokens: held only by unfinished inbound QoS 2 handshakes - in a sequence without a QoS 2 PUBLISH all
+			// of them are back once everything was answered (a request that borrows from the wrong pool shows here
+			// long before the pool of 10 runs dry)
+			if n, c, ok := env.ChanLen(evs[0].Client, "publishTokens"); ok && n != c && !strings.Contains(sig, "PUBLISH(q2") {
+				x.Failf("every-request-answered", "publish-token-leak:"+sig, "every request was answered and no QoS 2 handshake is open, but only %d of %d publish tokens are back (sent %s)", n, c, sig)
 			}
 		}
 		if p.ClosedByBroker() {
